@@ -717,6 +717,8 @@ void gen_generic(int fi) {
             c.dmax = dmv[idm].dmax; c.d_huge = dmv[idm].huge; c.d_bos = dbos;
             if (!c.d_null && c.dmax && !c.d_huge && dbos != 2 && !isn && !slv[isl].huge && !ion && !al) continue; /* part 1 */
             if (al && (idn || isn || dmv[idm].huge >= 2)) continue;                  /* aliasing needs two real pointers */
+            if (al && !(f->flags & F_QRY) && (P == 3 || P == 4 || P == 6 || P == 8)) continue;   /* identical pointers of a dest-writing call are C07's */
+            if (al && src_str && !pk) continue;                                      /* the aliased operand must be a string */
             if (c.d_huge >= 2) { c.d_obj = 0; if (dbos) continue; }
             else if (c.d_huge == 1) c.d_obj = c.dmax;
             else c.d_obj = c.dmax;
